@@ -615,6 +615,71 @@ theorem map_field_accepts_iff {β : Type} (d : J → Option β) (o : Option J) :
           cases t.mapM fun p => (d p.2).map fun v => (p.1, v) <;> simp
     | _ => simp [dMap]
 
+/-! ## cpe.WFN: what toolkit/types/cpe/marshaling.go adds around C19's codec
+
+  `unbind` stands for `cpe.Unbind` (C19's model in the driver); the theorems
+  hold for every such function. -/
+
+/-- The accepted language of `(*WFN).UnmarshalText`: the empty text, and whatever `Unbind` accepts. -/
+theorem wfn_accepts_iff {W : Type} (unbind : Bytes → Option W) (old : W) (b : Bytes) :
+    (wfnUnmarshalText unbind old b).isSome = true ↔ b = [] ∨ (unbind b).isSome = true := by
+  unfold wfnUnmarshalText
+  cases b with
+  | nil => simp
+  | cons c cs => simp
+
+/-- The empty text — the text form of the zero WFN — is accepted and leaves the
+    receiver as it is: decoded into a fresh value it gives the zero WFN back
+    (the zero value round-trips), decoded into a used receiver it does NOT
+    reset it (documented in marshaling.go for `Scan`). -/
+theorem wfn_empty_text_keeps_receiver {W : Type} (unbind : Bytes → Option W) (old : W) :
+    wfnUnmarshalText unbind old [] = some old ∧ wfnScan unbind old (.str []) = some old ∧
+    wfnScan unbind old (.bytes []) = some old := by
+  refine ⟨rfl, rfl, ?_⟩
+  simp [wfnScan, toValidUTF8, toValidUTF8Aux, wfnUnmarshalText]
+
+/-- A non-empty text is `Unbind`'s business alone (C19 `marshal_roundtrip_partial`
+    then gives the round trip of every valid, bindable name). -/
+theorem wfn_nonempty_is_unbind {W : Type} (unbind : Bytes → Option W) (old : W) (b : Bytes) (h : b ≠ []) :
+    wfnUnmarshalText unbind old b = unbind b := by
+  unfold wfnUnmarshalText
+  cases b with
+  | nil => exact absurd rfl h
+  | cons c cs => rfl
+
+/-- `Scan` over every kind of driver value: `string` is the text decoder,
+    `[]byte` the text decoder after `strings.ToValidUTF8`, everything else
+    (`nil` included) an error. -/
+theorem wfn_scan_spec {W : Type} (unbind : Bytes → Option W) (old : W) (src : Src) :
+    (∀ s, src = .str s → wfnScan unbind old src = wfnUnmarshalText unbind old s) ∧
+    (∀ b, src = .bytes b → wfnScan unbind old src = wfnUnmarshalText unbind old (toValidUTF8 b)) ∧
+    ((∀ s, src ≠ .str s) → (∀ b, src ≠ .bytes b) → wfnScan unbind old src = none) := by
+  cases src <;> simp [wfnScan]
+
+/-- `ToValidUTF8` leaves ASCII alone, so `Scan([]byte)` and `Scan(string)` agree
+    on every ASCII text — and a bound name is ASCII. -/
+theorem toValidUTF8_ascii (b : Bytes) (h : ∀ c ∈ b, c < 128) : toValidUTF8 b = b := by
+  unfold toValidUTF8
+  have : ∀ (n : Nat) (inv : Bool) (s : Bytes), s.length ≤ n → (∀ c ∈ s, c < 128) → toValidUTF8Aux n inv s = s := by
+    intro n
+    induction n with
+    | zero => intro inv s hl _; have : s = [] := by cases s <;> simp_all
+              subst this; rfl
+    | succ n ih =>
+      intro inv s hl hs
+      cases s with
+      | nil => rfl
+      | cons c r =>
+        have hc : c < 128 := hs c (by simp)
+        simp only [toValidUTF8Aux, utf8Width, hc, if_true, List.take_succ_cons, List.take_zero, List.drop_succ_cons,
+          List.drop_zero, List.cons_append, List.nil_append]
+        rw [ih false r (by simp only [List.length_cons] at hl; omega) (fun x hx => hs x (List.mem_cons_of_mem _ hx))]
+  exact this b.length false b (Nat.le_refl _) h
+
+theorem wfn_scan_bytes_ascii {W : Type} (unbind : Bytes → Option W) (old : W) (b : Bytes) (h : ∀ c ∈ b, c < 128) :
+    wfnScan unbind old (.bytes b) = wfnScan unbind old (.str b) := by
+  simp [wfnScan, toValidUTF8_ascii b h]
+
 /-- Non-vacuity: a concrete version with extreme int32 slots meets the
     hypotheses of the round-trip theorem. -/
 example : inInt32 (-2147483648) ∧ inInt32 2147483647 ∧ (58 : Nat) ∉ ([115, 101, 109] : Bytes) := by decide
